@@ -101,6 +101,11 @@ func skipFamily(r *eng.Run, id string) {
 	e1Evidence(r, D, K, res)
 	coverageReport(r, "skipValue")
 
+	arenaRefillPass(r, id)
+	runFamily(r, "long-runs", entry, longRunFamily(r.Thorough()), sp.check)
+	runFamily(r, "string-shapes", entry, stringShapeFamily(), sp.check)
+	runFamily(r, "depth-sites", entry, depthSiteFamily(70), sp.check)
+	runPairSweep(r, entry, pairCtxAll, sp.check)
 	deep := deepFamily(r, id, used)
 	r.Set("deep_family_runs", deep)
 	r.Add("evaluations", deep)
